@@ -774,6 +774,44 @@ for _r in ("SP", "newSP", "makeSP", "loadSP"):
     reg("robot_constructors", "%s(...)" % _r, {"spec": st.deferred(_sp_specs)}, _make_sp(_r), mode="nomut")
 
 
+# ... and the arrays stay the caller's own for as long as the robot lives: a constructor that KEEPS what it was handed
+# is only harmless until some later method writes into it.  Same operands, but the robot is used before they are
+# fingerprinted again.
+def _make_sp_used(ops, L):
+    operands, ctor = _make_sp("SP")(ops, L)
+
+    def call():
+        sp = ctor()
+        sp.spinCustom(float(ops["spin"]))
+        sp.move(L.tm(np.array(ops["pose"], dtype=float).reshape(6).copy()))
+        rel = sp.getBottomT().inv() @ sp.getTopT()
+        sp.IK(top_plate_pos=sp.getBottomT() @ rel, protect=True)
+        return sp
+    return operands, call
+
+
+def _make_arm_used(ops, L):
+    operands, ctor = _make_arm(ops, L)
+
+    def call():
+        arm = ctor()
+        arm.FK(np.array(ops["theta"], dtype=float).reshape(6).copy())
+        arm.move(L.tm(np.array(ops["pose"], dtype=float).reshape(6).copy()))
+        arm.FK(np.array(ops["theta"], dtype=float).reshape(6).copy() * 0.5)
+        return arm
+    return operands, call
+
+
+reg("robot_constructors", "SP(...) then spinCustom/move/IK", {"spec": st.deferred(_sp_specs), "spin": G.floats(-1.0, 1.0),
+                                                               "pose": G.taas(maxnorm=3.0, maxang=1.0)},
+    _make_sp_used, mode="nomut")
+reg("robot_constructors", "Arm(6R) then FK/move/FK", {"L": _lengths(), "base": _bases(),
+                                                      "ee_as": st.sampled_from(["matrix", "tm"]),
+                                                      "with_axes": st.booleans(), "theta": G.vec(6, -3.0, 3.0),
+                                                      "pose": G.taas(maxnorm=3.0, maxang=2.0)},
+    _make_arm_used, mode="nomut")
+
+
 # ---- ported Modern Robotics functions ------------------------------------------------------------
 
 def _near(strategy, eps=0.05):
